@@ -99,6 +99,7 @@ class TimeTriggerDecorator(TriggerDecorator):
             await self.dispatch(DispatchData({"trigger_type": "time", "trigger_time": "startup"}))
 
         first_run = True
+        time_last = None
         try:
             while self.dm.status is DecoratorManagerStatus.RUNNING:
                 if first_run:
@@ -106,6 +107,9 @@ class TimeTriggerDecorator(TriggerDecorator):
                     first_run = False
                 else:
                     now = dt_now()
+                    if time_last is not None and now < time_last:
+                        # woken up a hair early: the instant just dispatched must not be announced again
+                        now = time_last
 
                 _LOGGER.debug("time_trigger now %s", now)
                 time_next, time_next_adj = await trigger.TrigTime.timer_trigger_next(
@@ -143,6 +147,7 @@ class TimeTriggerDecorator(TriggerDecorator):
                     await asyncio.sleep(timeout)
 
                 await self.dispatch(DispatchData({"trigger_type": "time", "trigger_time": time_next}))
+                time_last = time_next
         except asyncio.CancelledError:
             raise
 
